@@ -87,11 +87,17 @@ def ncf2lateral_boundary(ncffile, outpath):
     date = date % (date // 100000 * 100000)
     time_hdr['ibdate'] = date
     time_hdr['btime'] = time
-    time_hdr['iedate'] = date
-    time_hdr['etime'] = time + 1.
-    time_hdr['iedate'] = _add_days(
-        time_hdr['iedate'], (time_hdr['etime'] // 24).astype('i'))
-    time_hdr['etime'] -= (time_hdr['etime'] // 24) * 24
+    if 'ETFLAG' in ncffile.variables.keys():
+        # end of each step as stored in the file it was read from
+        edate, etime = ncffile.variables['ETFLAG'][:, 0].T
+        time_hdr['iedate'] = edate % (edate // 100000 * 100000)
+        time_hdr['etime'] = etime.astype('>f') / 10000.
+    else:
+        time_hdr['iedate'] = date
+        time_hdr['etime'] = time + 1.
+        time_hdr['iedate'] = _add_days(
+            time_hdr['iedate'], (time_hdr['etime'] // 24).astype('i'))
+        time_hdr['etime'] -= (time_hdr['etime'] // 24) * 24
     emiss_hdr['ibdate'] = time_hdr['ibdate'][0]
     emiss_hdr['btime'] = time_hdr['btime'][0]
     emiss_hdr['iedate'] = time_hdr['iedate'][-1]
